@@ -240,7 +240,10 @@ func (qc QuorumCert) ToBytes() []byte {
 	if qc.signature != nil {
 		b = append(b, qc.signature.ToBytes()...)
 		// the signers are part of the certificate: the bytes of the signature alone do not say who signed
-		qc.signature.Participants().ForEach(func(id ID) {
+		// (their number comes first, which also tells a signature without signers from no signature)
+		signers := qc.signature.Participants()
+		b = binary.LittleEndian.AppendUint32(b, uint32(signers.Len()))
+		signers.ForEach(func(id ID) {
 			b = binary.LittleEndian.AppendUint32(b, uint32(id))
 		})
 	}
